@@ -81,13 +81,11 @@ func (e *EngineApplier) applyInReadOnlyMode(entry *wal.Entry) error {
 		return e.engine.Delete(entry.Key)
 
 	case wal.OpTypeMerge:
-		// Handle merge as a put operation for compatibility. Like a put it goes through the
-		// internal interface: clearing the read-only flag around a regular Put would let
-		// concurrent client writes through while the flag is down.
-		if putter, ok := e.engine.(interface{ PutInternal(key, value []byte) error }); ok {
-			return putter.PutInternal(entry.Key, entry.Value)
-		}
-		return e.engine.Put(entry.Key, entry.Value)
+		// There is no merge operator. The primary logs such an entry (it passes the WAL's
+		// type check) but neither its write path (storage.Manager.ApplyBatch) nor its
+		// recovery (MemTable.ProcessWALEntry) gives it any effect; applying it here as a
+		// put made the replica hold data the primary never had.
+		return nil
 
 	default:
 		return fmt.Errorf("unsupported WAL entry type: %d", entry.Type)
@@ -106,8 +104,8 @@ func (e *EngineApplier) applyInNormalMode(entry *wal.Entry) error {
 		return e.engine.Delete(entry.Key)
 
 	case wal.OpTypeMerge:
-		// Handle merge as a put operation for compatibility
-		return e.engine.Put(entry.Key, entry.Value)
+		// no effect, as on the primary (see applyInReadOnlyMode)
+		return nil
 
 	default:
 		return fmt.Errorf("unsupported WAL entry type: %d", entry.Type)
